@@ -10,16 +10,19 @@ pub mod c03;
 pub mod c04;
 pub mod c05;
 pub mod c06;
+#[cfg(fast_qr_verif)]
 pub mod c07;
 pub mod c08;
 pub mod c09;
 pub mod c10;
+#[cfg(fast_qr_verif)]
 pub mod c11;
 pub mod c12;
 pub mod c13;
 pub mod c14;
 pub mod c15;
 pub mod c16;
+#[cfg(fast_qr_verif)]
 pub mod c17;
 pub mod c18;
 pub mod c19;
@@ -43,15 +46,18 @@ pub fn lookup(id: &str) -> Option<Prop> {
         "C04" => p("C04", c04::run, c04::replay),
         "C05" => p("C05", c05::run, c05::replay),
         "C06" => p("C06", c06::run, c06::replay),
+        #[cfg(fast_qr_verif)]
         "C07" => p("C07", c07::run, c07::replay),
         "C08" => p("C08", c08::run, c08::replay),
         "C09" => p("C09", c09::run, c09::replay),
         "C10" => Prop { needs_model: false, watchdog_s: 120, on_timeout: c10::on_timeout, ..p("C10", c10::run, c10::replay) },
+        #[cfg(fast_qr_verif)]
         "C11" => p("C11", c11::run, c11::replay),
         "C12" => Prop { needs_model: false, ..p("C12", c12::run, c12::replay) },
         "C13" => Prop { needs_model: false, ..p("C13", c13::run, c13::replay) },
         "C14" => Prop { needs_model: false, ..p("C14", c14::run, c14::replay) },
         "C15" => p("C15", c15::run, c15::replay),
+        #[cfg(fast_qr_verif)]
         "C17" => Prop { needs_model: false, ..p("C17", c17::run, c17::replay) },
         "C18" => Prop { needs_model: false, ..p("C18", c18::run, c18::replay) },
         "C19" => Prop { needs_model: false, level: "fault_enumeration", ..p("C19", c19::run, c19::replay) },
